@@ -13,7 +13,9 @@ DECIDED = ["R10a both directions of the alias map are updated together (MUST)",
            "R10b only non-empty aliases, only for nodes (DOM, cut-set over guards incl. closures)",
            "R10c node removal removes its alias (MUST + value flow)",
            "R13f undo commands in mutation order (shared with C13)",
-           "R19t slot states of the hash tables are written only by insert / remove / full rehash (WHO table, shared)"]
+           "R19t slot states of the hash tables are written only by insert / remove / full rehash (WHO table, shared)",
+           "R10d aliases resolve only through the bidirectional map (backward data slice of db_id's success values)",
+           "R19u a capacity change of a hash table runs the full rebuild (shared)"]
 UNDECIDED = ["contents of the alias map over histories (needs execution)"]
 
 IM = "agdb::collections::indexed_map::IndexedMapImpl::"
@@ -31,6 +33,41 @@ def field_calls(b):
         if o and o[0] == 1 and o[1] and n.startswith(MAP):
             out.append((i, o[1][0][1:], n[len(MAP):]))
     return out
+
+
+def resolution_rule(ctx, rule="R10d"):
+    """An alias resolves through the one bidirectional map and nothing else: every success value of DbImpl::db_id is
+    computed from `self.aliases.value(..)` (alias) or from graph_index (numeric id).  A second source - a cache of earlier
+    look-ups - has to be kept in step with every alias mutation and rollback; one missed eviction makes an alias resolve to
+    a node that no longer holds it."""
+    b = ctx.anchor(rule, DB + "db_id")
+    if not b:
+        return
+    okb, errb, unk = cfg.ret_class_blocks(b)
+    bad = []
+    n = 0
+    for bi in okb + unk:
+        for st in b.blocks[bi]["s"]:
+            if "l" in st and st["l"] == [0]:
+                n += 1
+                ops = [cfg.op_place(o) for o in cfg.rvalue_operands(st["r"])]
+                seeds = [pl[0] for pl in ops if pl]
+                sl, calls_in, _rd = cfg.backward_slice(b, seeds) if seeds else (set(), [], set())
+                names = {common.norm(cfg.callee(t) or "") for i, t in calls_in}
+                if not ({IM + "value", DB + "graph_index"} & names):
+                    bad.append(b.loc(bi))
+        t = b.blocks[bi]["term"]
+        if t["k"] == "call" and t["d"] == [0]:
+            n += 1
+            if common.norm(cfg.callee(t) or "") not in (IM + "value", DB + "graph_index"):
+                sl, calls_in, _rd = cfg.backward_slice(b, [0])
+                names = {common.norm(cfg.callee(x) or "") for i, x in calls_in}
+                if not ({IM + "value", DB + "graph_index"} & names):
+                    bad.append(b.loc(bi))
+    ctx.ob(rule, "db_id:resolves-through-the-map", n > 0 and not bad,
+           "every success value comes from aliases.value(..) / graph_index(..)" if n > 0 and not bad else
+           "DbImpl::db_id can return an id that is not computed from aliases.value(..) or graph_index(..) (at %s): a second "
+           "source of alias bindings can disagree with the alias map" % bad, b.where)
 
 
 def run(ctx):
@@ -152,4 +189,6 @@ def run(ctx):
     # tombstone discipline of the open-addressing tables behind the alias map (shared rule, rules/maps_common.py)
     from rules import maps_common
     maps_common.slot_state_rule(ctx)
+    maps_common.resize_rehash_rule(ctx)
+    resolution_rule(ctx)
     return 0
